@@ -82,6 +82,8 @@ static void lib_chunks(const unsigned char *m, const size_t *l, int nl, unsigned
 {
     PCryptoHash *h = p_crypto_hash_new(ALG[A].type); psize len = ALG[A].dlen; size_t off = 0; int i; pchar *s;
     if (!h) { viol("new-failed", "p_crypto_hash_new returned NULL for a supported algorithm"); exit(1); }
+    if (p_crypto_hash_get_type(h) != ALG[A].type) viol("getter/type", "p_crypto_hash_get_type does not report the algorithm the object was created with");
+    if (p_crypto_hash_get_length(h) != (pssize)ALG[A].dlen) viol("getter/length", "p_crypto_hash_get_length reports %ld, the digest of this algorithm has %d bytes", (long)p_crypto_hash_get_length(h), (int)ALG[A].dlen);
     for (i = 0; i < nl; i++) { p_crypto_hash_update(h, m + off, l[i]); off += l[i]; }
     s = p_crypto_hash_get_string(h);
     if (s) { strncpy(str, s, 129); p_free(s); } else str[0] = 0;
